@@ -34,6 +34,7 @@ def malformed_points(rng, d, n=6):
     S = X.astype(object); S[rng.randint(n), rng.randint(d)] = 'abc'
     out.append(('text-object', S))
     out.append(('text-str', np.array([['a'] * d] * n)))
+    out.append(('text-numeric-strings', X.astype(str)))          # entries are text even when they spell numbers
     return out
 
 
@@ -50,6 +51,7 @@ def malformed_tuples(rng, t, d, n=6):
     S = T.astype(object); S[0, 0, 0] = 'abc'
     out.append(('text-object', S))
     out.append(('text-str', np.array([[['a'] * d] * t] * n)))
+    out.append(('text-numeric-strings', T.astype(str)))
     return out
 
 
